@@ -166,7 +166,7 @@ def run_case(ctx, kind_, idx):
         return
     before = ctx.monitors.get("rfa_post", 0)
     try:
-        with fp_watch(ctx):
+        with fp_watch(ctx) as fpw:
             if via_weaver:
                 wv = Weaver(xin, yin).recreate_from_average(n_arg, rfa_class=klass or R.cls(strat), **kw)
                 xs, ys = wv.get()
@@ -185,6 +185,11 @@ def run_case(ctx, kind_, idx):
         ctx.exception("raised_on_admissible_input", cid, e, {"case": R.brief(strat, x, y, n, kw, meta)})
         return
     ctx.judged()
+    if fpw.tripped:
+        # the values are judged below; a caller running with warnings as errors or numpy.seterr(all="raise") would not
+        # have got any - the unchanged code answers ordinary finite input without a single floating-point warning
+        ctx.violation("floating_point_warning_on_ordinary_input", cid, {"warnings": fpw.tripped[:4], "case": R.brief(strat, x, y, n, kw, meta)})
+        return
     if ctx.monitors.get("rfa_post", 0) == before:
         ctx.count("post_condition_not_reached")
     # what the caller finally sees (also covers the Weaver route, where get() is the observation point)
